@@ -152,6 +152,15 @@ def generate(rng, tier):
         case["edges"] = gen_edges(rng, n, False, False)
         case["kw"] = {"damping": rng.choice([0.5, 0.85, 0.99, 0.125]), "max_iter": rng.choice([0, 1, 2, 5, 100, 1000]),
                       "tol": rng.choice([1e-3, 1e-6, 1e-9, 0.0])}
+        if rng.random() < 0.002:
+            # thousands of in-links on one node and a tolerance near the rounding noise of such a sum: the replicas must still
+            # agree on whether (and when) the iteration has converged
+            n = case["n"] = rng.choice([1500, 2500, 4000])
+            hubs = rng.sample(range(n), rng.choice([1, 1, 2]))
+            case["edges"] = [[i, h] for h in hubs for i in range(n) if i != h and rng.random() < 0.97]
+            case["edges"] += [[hubs[0], rng.randrange(n)] for _ in range(rng.choice([0, 0, 3]))]
+            case["kw"] = {"damping": 0.85, "max_iter": 400, "tol": rng.choice([1e-13, 1e-13, 3e-13, 1e-12])}
+            return case
     else:
         case["edges"] = gen_edges(rng, n, False, False)
         case["kw"] = {}
@@ -312,13 +321,15 @@ def compare_(case, a, b, la, lb):
     if name == "pagerank_edges":
         tol = case["kw"].get("tol", 1e-6)
         d = max(abs(a.solution[i] - b.solution[i]) for i in range(case["n"]))
-        if d > max(10 * tol, 1e-9):  # the floor is for tol = 0: both replicas run every round, each with its own float summation order
-            return "answers_differ", f"PageRank scores differ by {d} > 10*tol: {la}={a.solution} {lb}={b.solution}"
+        if d > max(tol, 1e-12):  # "equal within the convergence tolerance", literally; the floor is for tol = 0 / tiny tol
+            return "answers_differ", f"PageRank scores differ by {d} > tol: {la}={a.solution} {lb}={b.solution}"
         if sa != sb:
             # float summation order may flip the convergence test only when the last max_diff sits on tol itself
             # (the Python body reports that max_diff as its objective)
             # (at tol = 0 no max_diff can be below tol in either replica, so there is nothing to excuse)
-            if tol == 0 or abs(a.objective - tol) > 1e-12 + 1e-9 * tol:
+            # (the band was 1e-12 wide until a tolerance of 1e-13 on a hub with thousands of in-links showed a real difference
+            # hiding inside it: Rust summed plainly, Python's sum() is compensated)
+            if tol == 0 or abs(a.objective - tol) > 1e-15 + 1e-9 * tol:
                 return "status_differs", (f"{la} {sa} after {a.iterations} iterations (last max_diff {a.objective!r}, tol {tol}), "
                                           f"{lb} {sb} after {b.iterations}")
         return None
@@ -407,6 +418,8 @@ def execute(case) -> Outcome:
         w = [1.0] if case["fn"] == "dijkstra_edges" else []
         case = dict(case, n=pn, edges=[[i, i + 1] + w for i in range(pn - 1)])
     _limit[0] = STEP_LIMIT + 60 * (case["n"] + len(case["edges"]))  # small cases keep the flat budget
+    if case["fn"] == "pagerank_edges":  # sweeps x (nodes + links): only matters for the hub family (thousands of nodes, hundreds of sweeps)
+        _limit[0] += 8 * (case["kw"].get("max_iter", 100) + 2) * (case["n"] + len(case["edges"]))
     o = Outcome()
     rmod = importlib.import_module("solvor.rust")
     avail = rmod.rust_available()
